@@ -132,6 +132,17 @@ ben("B26", ["C16", "C14", "C17"], "pure helpers memoised with functools.lru_cach
 ])
 
 
+# independently written property-preserving changes: /verif/benign/<id>/{patch.diff, meta.json}
+BENIGN_DIR = os.path.join(VERIF, "benign")
+if os.path.isdir(BENIGN_DIR):
+    for _name in sorted(os.listdir(BENIGN_DIR)):
+        _meta = os.path.join(BENIGN_DIR, _name, "meta.json")
+        if os.path.exists(_meta):
+            with open(_meta) as _fd:
+                _m = json.load(_fd)
+            BENIGN[_name] = {"checks": _m["checks"], "what": _m["what"], "edits": [], "patch": os.path.join(BENIGN_DIR, _name, "patch.diff")}
+
+
 def apply_edits(root: str, edits: List[Edit]) -> None:
     for rel, old, new in edits:
         every = old.startswith(ALL_)
@@ -147,7 +158,7 @@ def apply_edits(root: str, edits: List[Edit]) -> None:
 
 
 def main(argv: List[str]) -> int:
-    ids = [a for a in argv if not a.startswith("--")] or sorted(BENIGN, key=lambda x: int(x[1:]))
+    ids = [a for a in argv if not a.startswith("--")] or sorted(BENIGN, key=lambda x: (not x[1:].isdigit(), int(x[1:]) if x[1:].isdigit() else 0, x))
     results: Dict[str, object] = {}
     base = tempfile.mkdtemp(prefix="verif-ben-")
     bad = []
@@ -157,6 +168,10 @@ def main(argv: List[str]) -> int:
             root = os.path.join(base, bid)
             subprocess.run(["rsync", "-a", "--exclude", ".git", "--exclude", "__pycache__", REPO + "/", root + "/"], check=True)
             try:
+                if b.get("patch"):
+                    pr = subprocess.run(["patch", "-p1", "--no-backup-if-mismatch", "-i", str(b["patch"])], cwd=root, capture_output=True, text=True, check=False)
+                    if pr.returncode != 0:
+                        raise RuntimeError("patch does not apply: " + pr.stdout[-300:])
                 apply_edits(root, b["edits"])  # type: ignore[arg-type]
             except RuntimeError as exc:
                 print(f"{bid}: DOES-NOT-APPLY {exc}", flush=True)
